@@ -130,7 +130,7 @@ def gen_prog(rng):
         return dict(family=rng.choice(QFAMS), n=rng.choice([1, 2, 3, 4]), m=rng.choice([1, 2, 3]), dseed=rng.randrange(1 << 30))
     if r < 0.55:
         return dict(family='FEM', mesh=rng.choice(['line', 'quad']), nelems=rng.choice([1, 2, 4, 6]), degree=rng.choice([1, 2]), dseed=rng.randrange(1 << 30))
-    p = workloads.gen_prog(rng, ['P1', 'P2', 'P3', 'P4', 'P5', 'P6', 'P7', 'P9', 'P10', 'P14'])
+    p = workloads.gen_prog(rng, ['P1', 'P2', 'P3', 'P4', 'P5', 'P6', 'P7', 'P9', 'P10', 'P14', 'P15'])
     p['bad'] = -1
     return p
 
@@ -147,7 +147,7 @@ def gen_case(rng, index, tier):
     cfg = dict(cache=rng.random() < 0.75, simplify=rng.random() < 0.85, optimize=rng.random() < 0.85, stats=rng.random() < 0.08, compile_procs=rng.choice([1, 1, 1, 3]))
     nsets = rng.choice([1, 2, 3])
     ops = []
-    nops = rng.choice([2, 3, 4, 6, 8, 12])
+    nops = rng.choice([2, 3, 4, 6, 8, 12] + ([20, 30] if tier == 'thorough' else []))
     for _ in range(nops):
         r = rng.random()
         if r < 0.5:
